@@ -324,31 +324,41 @@ def run_shard(spec, tier, seed):
                 odim = r.choice([d for d in (2, 3, 4) if d != dim])
                 other = mkvec(genv(odim, R.SYSTEMS[odim][0]), R.SYSTEMS[odim][0], False)[0]
                 same_dim = mkvec(genv(dim, R.SYSTEMS[dim][0]), R.SYSTEMS[dim][0], False)[0]
+                import operator as _op
+
+                # the operator *statements* (v op= w), not the dunder methods: a dunder returning NotImplemented makes
+                # Python fall back to v = v op w, which rebinds the name instead of updating the object
                 fails = {
-                    "+= other dimension": lambda x: x.__iadd__(other),
-                    "-= other dimension": lambda x: x.__isub__(other),
-                    "+= number": lambda x: x.__iadd__(num(3)),
-                    "-= string": lambda x: x.__isub__("a"),
-                    "*= vector": lambda x: x.__imul__(same_dim),
-                    "/= vector": lambda x: x.__itruediv__(same_dim),
-                    "/= 0": lambda x: x.__itruediv__(0),
-                    "*= string": lambda x: x.__imul__("a"),
-                    "*= None": lambda x: x.__imul__(None),
-                    "+= None": lambda x: x.__iadd__(None),
+                    "+= other dimension": lambda x: _op.iadd(x, other),
+                    "-= other dimension": lambda x: _op.isub(x, other),
+                    "+= number": lambda x: _op.iadd(x, num(3)),
+                    "-= string": lambda x: _op.isub(x, "a"),
+                    "*= vector": lambda x: _op.imul(x, same_dim),
+                    "/= vector": lambda x: _op.itruediv(x, same_dim),
+                    "/= 0": lambda x: _op.itruediv(x, 0),
+                    "*= string": lambda x: _op.imul(x, "a"),
+                    "*= None": lambda x: _op.imul(x, None),
+                    "+= None": lambda x: _op.iadd(x, None),
                 }
                 if not mp_mode:
                     # a result that is not a single vector cannot be assigned: TypeError, object untouched
                     arr = B.mk_numpy_cls(R.SYSTEMS[dim][0], [B.obj_stored(same_dim)[1]] * 2, False)
-                    fails["+= numpy vector array"] = lambda x: x.__iadd__(arr)
-                    fails["-= numpy vector array"] = lambda x: x.__isub__(arr)
+                    fails["+= numpy vector array"] = lambda x: _op.iadd(x, arr)
+                    fails["-= numpy vector array"] = lambda x: _op.isub(x, arr)
+                    akarr = B.mk_awk(R.SYSTEMS[dim][0], [B.obj_stored(same_dim)[1]] * 2, False)
+                    fails["+= awkward vector array"] = lambda x: _op.iadd(x, akarr)
+                    fails["-= awkward vector array"] = lambda x: _op.isub(x, akarr)
+                    fails["+= awkward vector record"] = lambda x: _op.iadd(x, akarr[0])
 
                 fname = r.choice(list(fails))
                 hist.append(f"FAIL {fname}")
                 raised = None
                 try:
                     out = fails[fname](v)
-                    if out is NotImplemented:
-                        raised = "NotImplemented"
+                    if out is not v:
+                        # the statement completed and would bind the name to another object
+                        V(f"inplace-operator-statement-rebinds-the-name step={fname}", hist, result_type=type(out).__name__)
+                        break
                 except Exception as e:
                     raised = type(e).__name__
                 sys_after, stored = B.obj_stored(v)
